@@ -45,9 +45,12 @@ func reduceOperator(d *dataTreeNavigator, context Context, expressionNode *Expre
 		log.Debugf("REDUCING WITH %v", NodeToString(candidate))
 		l := list.New()
 		l.PushBack(candidate)
-		accum.SetVariable(variableName, l)
+		// bind the loop variable in a scope of its own: the accumulator can still be
+		// the context we were given (init `.`), whose variables belong to the caller
+		blockContext := accum.ChildContext(accum.MatchingNodes)
+		blockContext.SetVariable(variableName, l)
 
-		accum, err = d.GetMatchingNodes(accum, blockExp)
+		accum, err = d.GetMatchingNodes(blockContext, blockExp)
 		if err != nil {
 			return Context{}, err
 		}
